@@ -167,8 +167,26 @@ func (s *slicer) walk(v ssa.Value, res *sliceRes, depth int) {
 			}
 		}
 		return
+	case *ssa.Field:
+		if rep, call := structFieldRep(x); rep != nil && depth < s.maxDepth {
+			// only the carried field, not everything the helper computes
+			res.Vals[call] = true
+			s.walk(rep, res, depth+1)
+			for _, a := range call.Call.Args {
+				s.walk(a, res, depth)
+			}
+			return
+		}
 	case *ssa.UnOp:
 		if x.Op == token.MUL {
+			if rep, call := structFieldRep(x); rep != nil && depth < s.maxDepth {
+				res.Vals[call] = true
+				s.walk(rep, res, depth+1)
+				for _, a := range call.Call.Args {
+					s.walk(a, res, depth)
+				}
+				return
+			}
 			s.walk(x.X, res, depth)
 			fn := x.Parent()
 			if fn != nil {
@@ -316,6 +334,59 @@ func (s *slicer) followAllocUse(al *ssa.Alloc, in ssa.Instruction, res *sliceRes
 			res.Instrs[c] = true
 			for _, a := range c.Common().Args {
 				s.walk(a, res, depth)
+			}
+		}
+	case *ssa.MakeClosure:
+		// the variable is captured by a function literal that assigns to it
+		// (consider := func(name string) { if id > max { max = id } }): what the literal stores into the
+		// captured variable, and the arguments it is called with, are part of the variable's history
+		cf, _ := x.Fn.(*ssa.Function)
+		if cf == nil || depth >= s.maxDepth {
+			return
+		}
+		if res.accSeen == nil {
+			res.accSeen = map[*ssa.Alloc]bool{}
+		}
+		for i, b := range x.Bindings {
+			if b != ssa.Value(al) || i >= len(cf.FreeVars) {
+				continue
+			}
+			fv := cf.FreeVars[i]
+			if refs := fv.Referrers(); refs != nil {
+				for _, in2 := range *refs {
+					if st, ok := in2.(*ssa.Store); ok && st.Addr == ssa.Value(fv) {
+						res.Instrs[st] = true
+						s.walk(st.Val, res, depth+1)
+					}
+				}
+			}
+		}
+		// the literal's parameters are bound at its call sites
+		var handles []ssa.Value
+		handles = append(handles, x)
+		if refs := x.Referrers(); refs != nil {
+			for _, u := range *refs {
+				if st, ok := u.(*ssa.Store); ok && st.Val == ssa.Value(x) {
+					if hal, ok := st.Addr.(*ssa.Alloc); ok && hal.Referrers() != nil {
+						for _, u2 := range *hal.Referrers() {
+							if ld, ok := u2.(*ssa.UnOp); ok && ld.Op == token.MUL {
+								handles = append(handles, ld)
+							}
+						}
+					}
+				}
+			}
+		}
+		for _, h := range handles {
+			if h.Referrers() == nil {
+				continue
+			}
+			for _, u := range *h.Referrers() {
+				if c, ok := u.(ssa.CallInstruction); ok && c.Common().Value == h {
+					for _, a := range c.Common().Args {
+						s.walk(a, res, depth+1)
+					}
+				}
 			}
 		}
 	case *ssa.IndexAddr:
@@ -484,6 +555,11 @@ func symOfD(v ssa.Value, d int) symString {
 	if d > 12 {
 		return symString{{Sym: v}}
 	}
+	if rep, call := structFieldRep(v); rep != nil && d < 8 {
+		// a string carried in a struct built by a helper: the helper's expression with the call's
+		// arguments substituted for its parameters
+		return substParams(symOfD(rep, d+1), call, d)
+	}
 	switch x := v.(type) {
 	case *ssa.Const:
 		if s, ok := constString(x); ok {
@@ -519,6 +595,42 @@ func symOfD(v ssa.Value, d int) symString {
 			}
 		}
 	case *ssa.Call:
+		// a straight-line module helper that builds a string from its parameters
+		// (func mediaPartName(n string) string { return "word/media/" + n }): its expression with the
+		// arguments substituted
+		if cal := staticCallee(x); cal != nil && cal.Pkg != nil && strings.HasPrefix(cal.Pkg.Pkg.Path(), modPath) && len(cal.Blocks) == 1 &&
+			cal.Signature.Results().Len() == 1 && isStringType(cal.Signature.Results().At(0).Type()) && d < 8 {
+			if ret, ok := cal.Blocks[0].Instrs[len(cal.Blocks[0].Instrs)-1].(*ssa.Return); ok && len(ret.Results) == 1 {
+				inner := symOfD(ret.Results[0], d+1)
+				var out symString
+				okSub := true
+				for _, part := range inner {
+					if part.Sym == nil {
+						out = append(out, part)
+						continue
+					}
+					if prm, isP := part.Sym.(*ssa.Parameter); isP {
+						if i := paramIndex(cal, prm); i >= 0 && i < len(x.Call.Args) {
+							out = append(out, symOfD(x.Call.Args[i], d+1)...)
+							continue
+						}
+					}
+					// a field of a struct-valued parameter (method on a value receiver: r.fileName)
+					if prm, fidx := paramFieldRead(part.Sym); prm != nil {
+						if i := paramIndex(cal, prm); i >= 0 && i < len(x.Call.Args) {
+							if rep, call2 := structFieldOf(x.Call.Args[i], fidx, 0); rep != nil {
+								out = append(out, substParams(symOfD(rep, d+1), call2, d)...)
+								continue
+							}
+						}
+					}
+					okSub = false // depends on something local to the helper
+				}
+				if okSub && len(out) > 0 {
+					return out.norm()
+				}
+			}
+		}
 		if calleeName(x) == "fmt.Sprintf" && len(x.Call.Args) == 2 {
 			if format, ok := constString(x.Call.Args[0]); ok {
 				args := varargElems(x.Call.Args[1])
@@ -661,4 +773,169 @@ func (s *slicer) SliceWithControl(v ssa.Value, at ssa.Instruction) *sliceRes {
 		s.walk(c, res, 0)
 	}
 	return res
+}
+
+// ---------------------------------------------------------------------------
+// Values carried in a small struct: res := d.allocate(...); … res.relationID … res.partName()
+// ---------------------------------------------------------------------------
+
+// structFieldRep: v reads field i of a struct VALUE that is the result of a call to a module
+// function returning a composite literal (directly, or through a local variable assigned once).
+// Returns the value the callee stored into that field (it lives in the callee) and the call; two
+// reads of the same field of the same call result have the same representative.
+func structFieldRep(v ssa.Value) (ssa.Value, *ssa.Call) {
+	var base ssa.Value
+	idx := -1
+	switch x := v.(type) {
+	case *ssa.Field:
+		base, idx = x.X, x.Field
+	case *ssa.UnOp:
+		if x.Op == token.MUL {
+			if fa, ok := x.X.(*ssa.FieldAddr); ok {
+				if al, ok := fa.X.(*ssa.Alloc); ok {
+					base, idx = al, fa.Field
+				}
+			}
+		}
+	}
+	if base == nil || idx < 0 {
+		return nil, nil
+	}
+	return structFieldOf(base, idx, 0)
+}
+
+func structFieldOf(base ssa.Value, idx int, depth int) (ssa.Value, *ssa.Call) {
+	if depth > 3 {
+		return nil, nil
+	}
+	switch b := base.(type) {
+	case *ssa.Alloc:
+		if _, isStruct := derefType(b.Type()).Underlying().(*types.Struct); !isStruct || b.Referrers() == nil {
+			return nil, nil
+		}
+		var whole []ssa.Value
+		for _, u := range *b.Referrers() {
+			switch y := u.(type) {
+			case *ssa.Store:
+				if y.Addr == ssa.Value(b) {
+					whole = append(whole, y.Val)
+				}
+			case *ssa.FieldAddr:
+				if y.Referrers() != nil {
+					for _, u2 := range *y.Referrers() {
+						if st, ok := u2.(*ssa.Store); ok && st.Addr == ssa.Value(y) {
+							return nil, nil // the variable is modified field by field: not a carried value
+						}
+					}
+				}
+			}
+		}
+		if len(whole) != 1 {
+			return nil, nil
+		}
+		return structFieldOf(whole[0], idx, depth+1)
+	case *ssa.UnOp:
+		if b.Op == token.MUL {
+			if al, ok := b.X.(*ssa.Alloc); ok {
+				return structFieldOf(al, idx, depth+1)
+			}
+		}
+	case *ssa.Call:
+		cal := staticCallee(b)
+		if cal == nil || cal.Pkg == nil || !strings.HasPrefix(cal.Pkg.Pkg.Path(), modPath) || len(cal.Blocks) == 0 {
+			return nil, nil
+		}
+		rets := returnsOf(cal)
+		if len(rets) != 1 || len(rets[0].Results) != 1 {
+			return nil, nil
+		}
+		ld, ok := rets[0].Results[0].(*ssa.UnOp)
+		if !ok || ld.Op != token.MUL {
+			return nil, nil
+		}
+		lit, ok := ld.X.(*ssa.Alloc)
+		if !ok || lit.Referrers() == nil {
+			return nil, nil
+		}
+		var rep ssa.Value
+		n := 0
+		for _, u := range *lit.Referrers() {
+			if fa, ok := u.(*ssa.FieldAddr); ok && fa.Field == idx && fa.Referrers() != nil {
+				for _, u2 := range *fa.Referrers() {
+					if st, ok := u2.(*ssa.Store); ok && st.Addr == ssa.Value(fa) {
+						rep = st.Val
+						n++
+					}
+				}
+			}
+		}
+		if n == 1 {
+			return rep, b
+		}
+	}
+	return nil, nil
+}
+
+// sameCarried: a and b are the same value, or read the same field of the same carried struct.
+func sameCarried(a, b ssa.Value) bool {
+	if a == b {
+		return true
+	}
+	ra, ca := structFieldRep(a)
+	rb, cb := structFieldRep(b)
+	return ra != nil && ra == rb && ca == cb
+}
+
+// substParams replaces parameters of call's callee in a symbolic string by the call's arguments.
+func substParams(in symString, call *ssa.Call, d int) symString {
+	cal := staticCallee(call)
+	if cal == nil {
+		return in
+	}
+	var out symString
+	for _, part := range in {
+		if prm, isP := part.Sym.(*ssa.Parameter); isP && part.Sym != nil {
+			if i := paramIndex(cal, prm); i >= 0 && i < len(call.Call.Args) {
+				out = append(out, symOfD(call.Call.Args[i], d+1)...)
+				continue
+			}
+		}
+		out = append(out, part)
+	}
+	return out.norm()
+}
+
+// paramFieldRead: v reads field i of a struct-valued parameter — directly (Field) or through the
+// local copy go/ssa makes of a value receiver whose address is taken (spilled parameter).
+func paramFieldRead(v ssa.Value) (*ssa.Parameter, int) {
+	switch x := v.(type) {
+	case *ssa.Field:
+		if prm, ok := x.X.(*ssa.Parameter); ok {
+			return prm, x.Field
+		}
+	case *ssa.UnOp:
+		if x.Op != token.MUL {
+			return nil, -1
+		}
+		fa, ok := x.X.(*ssa.FieldAddr)
+		if !ok {
+			return nil, -1
+		}
+		al, ok := fa.X.(*ssa.Alloc)
+		if !ok || al.Referrers() == nil {
+			return nil, -1
+		}
+		var prm *ssa.Parameter
+		n := 0
+		for _, u := range *al.Referrers() {
+			if st, ok := u.(*ssa.Store); ok && st.Addr == ssa.Value(al) {
+				n++
+				prm, _ = st.Val.(*ssa.Parameter)
+			}
+		}
+		if n == 1 && prm != nil {
+			return prm, fa.Field
+		}
+	}
+	return nil, -1
 }
